@@ -6,11 +6,33 @@ from . import build, engine, run, checks, diff, checks2
 # (machine, configurations compared, workload)
 C13_SETS = [
     ('m01', None), ('m04', None), ('m05', None), ('m06', None), ('m07d', None), ('m08', None), ('m10', None), ('m11d', None), ('m11', None),
+    ('m17d', None),
+    ('m17', None),     # completion rows in two regions entered together: plain workload only (known finding KF4)
     ('m07', None),     # guarded Defer-action row: plain workload only (known finding KF1)
     ('m02', ['b', 'bc', 'bq', 'mf', 'mp', 'mc']), ('m03', ['b', 'bc', 'bq', 'mf', 'mp', 'mc']),
     ('m09', ['b', 'bq', 'mf']),
 ]
 WL = [dict(), dict(effects=0.3, effect_api='p'), dict(fail=0.3)]
+
+
+def gen_names(tier, seed):
+    """generated machine definitions: two fixed ones in the quick tier (cached by setup), a seed-dependent dozen more in thorough"""
+    out = ['gen:101', 'gen:103']
+    if tier == 'thorough':
+        out += ['gen:%d' % (1000 + (seed % 1000) * 20 + k) for k in range(12)]
+    return out
+
+
+def has_sm_internal(m):
+    return bool(m['internal']) or any(has_sm_internal(s['machine']) for s in m['states'].values() if s['kind'] == 'sub')
+
+
+def gen_cfgs(name):
+    """b11 does not compile machine-level internal tables: leave it out for generated machines that have one"""
+    sp = engine.load_spec(name)
+    if has_sm_internal(sp['root']):
+        return [c for c in build.CONFIGS if c != 'b11']
+    return None
 
 
 def has_completion(spec):
@@ -19,6 +41,36 @@ def has_completion(spec):
             return True
         return any(walk(s['machine']) for s in m['states'].values() if s['kind'] == 'sub')
     return walk(spec['root'])
+
+
+def completion_source(ix, rec):
+    """(machine, region, state) whose completion step the normalised record belongs to, or None"""
+    if not isinstance(rec, tuple) or len(rec) < 4 or rec[3] != 'none':
+        return None
+    kind, site = rec[0], rec[1]
+    if kind == 'EX' and '.' in site:
+        mname, sname = site.split('.', 1)
+    elif kind == 'G':
+        gs = [g for g in ix.gsites if g['name'] == site]
+        if not gs or not gs[0].get('cg_src'):
+            return None
+        mname, sname = gs[0]['cg_src'].split('.', 1)
+    else:
+        return None
+    m = ix.machines.get(mname)
+    if m is None or sname not in m['states']:
+        return None
+    return (mname, ix.region_of(m, sname), sname)
+
+
+def completion_order_case(ix, a, b):
+    """the two traces continue with completion steps of two *different regions* of the same machine: the
+    families order the completion transitions of states entered in one cascade differently (KF4)"""
+    sa, sb = completion_source(ix, a), completion_source(ix, b)
+    if sa is None or sb is None or sa[0] != sb[0] or sa[1] is None or sb[1] is None or sa[1] == sb[1]:
+        return None
+    lo, hi = sorted([sa[1], sb[1]])
+    return '%s:regions %d~%d' % (sa[0], lo, hi)
 
 
 def run_c13(tier, seed):
@@ -34,18 +86,36 @@ def run_c13(tier, seed):
     known = engine.load_known()
     n = 50 if tier == 'quick' else 500
     hs = {m: engine.Harness(m, cfgs) for m, cfgs in C13_SETS}
+    for g in gen_names(tier, seed):
+        hs[g] = engine.Harness(g, gen_cfgs(g))
     errs = engine.build_harnesses(list(hs.values()))
     if errs:
         print('HARNESS build failure:\n' + '\n'.join(errs)[:4000])
         return 2
     violations, harness_problems, known_hits = [], [], {}
     pairs = 0
-    for m, cfgs in C13_SETS:
+    sets = list(C13_SETS) + [(g, None) for g in gen_names(tier, seed)]
+    for m, cfgs in sets:
         h = hs[m]
+        # "the active state ids ... identical": the numeric ids themselves (as the library numbers the states)
+        hdr = run.run_matrix(h.bins, ['S'])
+        ref0 = 'mf' if 'mf' in h.cfgs else h.cfgs[0]
+        idmaps = {c: run.parse_idmap(hdr[c][0].header)[0] for c in h.cfgs}
+        for c in h.cfgs:
+            if idmaps[c] != idmaps[ref0]:
+                diffm = [mm for mm in idmaps[ref0] if idmaps[c].get(mm) != idmaps[ref0][mm]]
+                sig = '%s|numbering|%s' % (m, diffm)
+                k = engine.match_known(known, prop, build.FAMNAME[c], 'state-id-numbering', sig)
+                if k:
+                    known_hits[k['id']] = known_hits.get(k['id'], 0) + 1
+                    continue
+                rp = engine.write_replay(prop, {'kind': 'c13', 'property': prop, 'machine': m, 'cfgs': [ref0, c], 'script': 'S',
+                                                'rule': 'state-id-numbering', 'expected': str(idmaps[ref0]), 'got': str(idmaps[c])})
+                violations.append((rp, m, '%s-vs-%s' % (ref0, c), 'state-id-numbering', idmaps[ref0], idmaps[c]))
         for wi, kw in enumerate(WL):
             if kw.get('fail') and has_completion(h.spec0):
                 continue
-            if m in ('m07', 'm11') and wi != 0:
+            if m in ('m07', 'm11', 'm17') and wi != 0:
                 continue
             scripts = checks.scripts_for(h, seed + wi, n, dict(kw, drain1=False))
             res = run.run_matrix(h.bins, scripts)
@@ -61,7 +131,7 @@ def run_c13(tier, seed):
                         violations.append((rp, m, cfg, 'crash:' + r.status.split(':')[0], 'normal end of script', r.status))
                         bad = True
                         continue
-                    norm[cfg] = diff.normalize(r.recs, h.ixs[cfg])
+                    norm[cfg] = diff.normalize(r.recs, h.ixs[cfg], names=True)
                 ev.evaluations += len(h.cfgs)
                 if bad or ref not in norm:
                     continue
@@ -78,15 +148,19 @@ def run_c13(tier, seed):
                     a = norm[ref][j] if j < len(norm[ref]) else 'END'
                     b = norm[cfg][j] if j < len(norm[cfg]) else 'END'
                     sig = '%s|%s|%s' % (m, str(a)[:120], str(b)[:120])
-                    k = engine.match_known(known, prop, build.FAMNAME[cfg], 'differential', sig)
+                    rule = 'differential'
+                    co = completion_order_case(h.ixs[cfg], a, b)
+                    if co:
+                        rule, sig = 'completion-order-across-regions', '%s|%s' % (m, co)
+                    k = engine.match_known(known, prop, build.FAMNAME[cfg], rule, sig)
                     if k:
                         known_hits[k['id']] = known_hits.get(k['id'], 0) + 1
                         continue
                     rp = engine.write_replay(prop, {'kind': 'c13', 'property': prop, 'machine': m, 'cfgs': [ref, cfg], 'script': scripts[i],
-                                                    'rule': 'differential', 'expected': str(a), 'got': str(b), 'pos': j,
+                                                    'rule': rule, 'expected': str(a), 'got': str(b), 'pos': j,
                                                     'window_ref': [str(x) for x in norm[ref][max(0, j - 8):j + 3]],
                                                     'window_cfg': [str(x) for x in norm[cfg][max(0, j - 8):j + 3]]})
-                    violations.append((rp, m, '%s-vs-%s' % (ref, cfg), 'differential', a, b))
+                    violations.append((rp, m, '%s-vs-%s' % (ref, cfg), rule, a, b))
                 if len(ev.samples) < 3 and i == 0:
                     ev.samples.append({'machine': m, 'configurations': h.cfgs, 'script': scripts[i][:500],
                                        'normalised_trace_head': [str(x) for x in norm[ref][:20]]})
@@ -110,7 +184,7 @@ def replay_c13(path):
             print('cfg %s: %s' % (cfg, r.status))
             print('VIOLATION property=C13 replay=%s' % path)
             return 1
-        norm[cfg] = diff.normalize(r.recs, h.ixs[cfg])
+        norm[cfg] = diff.normalize(r.recs, h.ixs[cfg], names=True)
     if len(h.cfgs) < 2:
         print('ACCEPTED')
         return 0
@@ -126,4 +200,4 @@ def replay_c13(path):
 
 
 def setup():
-    return engine.build_harnesses([engine.Harness(m, cfgs) for m, cfgs in C13_SETS])
+    return engine.build_harnesses([engine.Harness(m, cfgs) for m, cfgs in C13_SETS] + [engine.Harness(g, gen_cfgs(g)) for g in gen_names('quick', 1)])
